@@ -8,6 +8,8 @@ mod api;
 mod aut;
 mod e1;
 mod e1run;
+mod e2;
+mod e3;
 mod json;
 mod props;
 mod report;
